@@ -90,10 +90,12 @@ class Check:
                 per_cfg.setdefault(s["cfg"], 0)
                 per_cfg[s["cfg"]] += 1
             for c in self.cfgs:
-                if r.cfg_applicable(c) if hasattr(r, "cfg_applicable") else True:
-                    n = per_cfg.get(c, 0)
-                    if n < r.floor and not getattr(r, "skip_cfgs", set()) & {c}:
-                        broken.append("[%s cfg=%s] matched %d sites < floor %d" % (rid, c, n, r.floor))
+                only = getattr(r, "only_cfgs", None)
+                if only is not None and c not in only:
+                    continue
+                n = per_cfg.get(c, 0)
+                if n < r.floor:
+                    broken.append("[%s cfg=%s] matched %d sites < floor %d" % (rid, c, n, r.floor))
             broken.extend(r.broken)
             seen = set()
             nv = 0
